@@ -70,6 +70,7 @@ type Node struct {
 	GID     int    `json:"gid,omitempty"`     // generation id of a capturing group (1-based, textual order)
 	Quote   bool   `json:"quote,omitempty"`   // (?'name'...) spelling
 	PName   bool   `json:"pname,omitempty"`   // (?P<name>...) spelling
+	Zeros   int    `json:"zeros,omitempty"`   // leading zeros written before an explicit number: (?<05>...)
 
 	// references
 	Ref    int  `json:"ref,omitempty"`    // GID of the referenced group
@@ -552,9 +553,11 @@ func (p *printer) node(n *Node) {
 		case !n.Capture:
 			p.w("(?:")
 		case n.Num > 0 && n.PName:
-			p.w("(?P<" + strconv.Itoa(n.Num) + ">")
+			p.w("(?P<" + strings.Repeat("0", n.Zeros) + strconv.Itoa(n.Num) + ">")
+		case n.Num > 0 && n.Quote:
+			p.w("(?'" + strings.Repeat("0", n.Zeros) + strconv.Itoa(n.Num) + "'")
 		case n.Num > 0:
-			p.w("(?<" + strconv.Itoa(n.Num) + ">")
+			p.w("(?<" + strings.Repeat("0", n.Zeros) + strconv.Itoa(n.Num) + ">")
 		case n.Name != "" && n.PName:
 			p.w("(?P<" + n.Name + ">")
 		case n.Name != "" && n.Quote:
